@@ -186,6 +186,19 @@ def mutation_findings(o, strict=True, db=None):
         elif e["kind"] == "attr_store" and not e["in_init"]:
             if e.get("empty"):
                 continue  # creation of an empty memo table: judged by what is stored in it
+            val = e.get("value")
+            if isinstance(val, Tup) and len(val.items) >= 2 and not any(isinstance(i, Star) for i in val.items):
+                # a one-entry memo kept in an attribute: self._last = (key..., value); the entry is returned when the key parts match again
+                comps = set()
+                for i in val.items[:-1]:
+                    comps |= _key_components(i)
+                missing = sorted((a for a in _input_atoms(val.items[-1]) if a not in comps), key=lambda a: a.key)
+                if missing:
+                    out.append(("memo-key", "one-entry memo self.%s: the remembered value depends on %s, which the remembered key %s does not determine (a later call with another %s gets this entry)"
+                                % (e["attr"], ", ".join(show(a, 30) for a in missing[:3]), show(Tup(list(val.items[:-1])), 60), show(missing[0], 30)), e))
+                    continue
+                if not strict:
+                    continue
             out.append(("attr-store", "self.%s re-bound" % e["attr"], e))
         elif e["kind"] == "dict_store" and not e["in_init"] and (not strict or (e["obj"].cls.qualname, e["attr"]) not in TABLED_CACHES):
             # a per-object memo is unobservable - and accepted - when its key determines the stored value and nothing the value depends on
